@@ -104,16 +104,50 @@ theorem wf_list_inv {env : Env} {d : Nat} {td : TD} {vs : List Val} (h : wf env 
   subst hne
   exact ⟨ptr, e, rfl, hok, hel⟩
 
-/-- a wf value is a primitive (of a primitive descriptor), a struct or a list. -/
+/-- wf inversion for a nil interface. -/
+theorem wf_nil_inv {env : Env} {d : Nat} {td : TD} (h : wf env d td .nil = true) : ∃ id, td = .iface id := by
+  unfold wf at h
+  cases td <;> simp only [Bool.false_eq_true] at h
+  rename_i id
+  exact ⟨id, rfl⟩
+
+theorem wf_nil_depth {env : Env} {d : Nat} {td : TD} (h : wf env d td .nil = true) : 0 < d := by
+  unfold wf at h
+  cases td <;> simp only [Bool.false_eq_true] at h
+  simp only [bne_iff_ne, ne_eq] at h
+  omega
+
+/-- wf inversion for a non-nil interface value. -/
+theorem wf_any_inv {env : Env} {d : Nat} {td : TD} {name : Bytes} {cv : Val}
+    (h : wf env d td (.any name cv) = true) :
+    ∃ id n ifs fs rs, td = .iface id ∧ env.find? name = some ⟨n, ifs, .struct fs rs⟩ ∧
+      ifs.contains id = true ∧ nameOK name = true ∧ wf env d (.ref name) cv = true := by
+  unfold wf at h
+  cases td <;> simp only [Bool.false_eq_true] at h
+  rename_i id
+  split at h
+  · rename_i n ifs fs rs hf
+    simp only [Bool.and_eq_true] at h
+    exact ⟨id, n, ifs, fs, rs, rfl, hf, h.1.1, h.1.2, h.2⟩
+  · simp at h
+
+/-- a wf value is a primitive (of a primitive descriptor), a struct, a list, a nil
+interface or a non-nil interface value. -/
 theorem wf_cases {env : Env} {d : Nat} {td : TD} {v : Val} (h : wf env d td v = true) :
-    (isPrimVal v = true ∧ primOK td v = true) ∨ (∃ vs, v = .struct vs) ∨ (∃ vs, v = .list vs) := by
-  cases v <;> simp only [wf, Bool.false_eq_true] at h
-  case u n => exact Or.inl ⟨rfl, h⟩
-  case i z => exact Or.inl ⟨rfl, h⟩
-  case b x => exact Or.inl ⟨rfl, h⟩
-  case x bs => exact Or.inl ⟨rfl, h⟩
+    (isPrimVal v = true ∧ primOK td v = true) ∨ (∃ vs, v = .struct vs) ∨ (∃ vs, v = .list vs) ∨
+      (v = .nil ∧ ∃ id, td = .iface id) ∨ (∃ name cv id, v = .any name cv ∧ td = .iface id) := by
+  cases v
+  case u n => simp only [wf] at h; exact Or.inl ⟨rfl, h⟩
+  case i z => simp only [wf] at h; exact Or.inl ⟨rfl, h⟩
+  case b x => simp only [wf] at h; exact Or.inl ⟨rfl, h⟩
+  case x bs => simp only [wf] at h; exact Or.inl ⟨rfl, h⟩
   case struct vs => exact Or.inr (Or.inl ⟨vs, rfl⟩)
-  case list vs => exact Or.inr (Or.inr ⟨vs, rfl⟩)
+  case list vs => exact Or.inr (Or.inr (Or.inl ⟨vs, rfl⟩))
+  case nil => exact Or.inr (Or.inr (Or.inr (Or.inl ⟨rfl, wf_nil_inv h⟩)))
+  case any name cv =>
+    obtain ⟨id, _, _, _, _, htd, _⟩ := wf_any_inv h
+    exact Or.inr (Or.inr (Or.inr (Or.inr ⟨name, cv, id, rfl, htd⟩)))
+  all_goals (simp [wf] at h)
 
 theorem wfElems_cons {env : Env} {d : Nat} {e : TD} {v : Val} {vs : List Val} :
     wfElems env d e (v :: vs) = true ↔ wf env d e v = true ∧ wfElems env d e vs = true := by
@@ -255,13 +289,15 @@ theorem wf_list_field {env : Env} {d : Nat} {f : FieldD} {fs : List FieldD} {v :
   cases hptr : f.ptr
   · refine ⟨rfl, ?_⟩
     have hwv := hnp hptr
-    rcases wf_cases hwv with ⟨_, hprim⟩ | ⟨vs', rfl⟩ | ⟨es, rfl⟩
+    rcases wf_cases hwv with ⟨_, hprim⟩ | ⟨vs', rfl⟩ | ⟨es, rfl⟩ | ⟨_, id, htd⟩ | ⟨_, _, id, _, htd⟩
     · rw [isUnpackedList_prim (primOK_isPrimTD hprim)] at hK; cases hK
     · obtain ⟨name, n, ifs, fs', rs, d', htd, hfind, _, _⟩ := wf_struct_inv hwv
       rw [htd, isUnpackedList_ref (aliasOf_struct hfind)] at hK; cases hK
     · obtain ⟨ptr, e, htd, hok, hel⟩ := wf_list_inv hwv
       rw [htd, isUnpackedList_list] at hK
       exact ⟨ptr, e, es, htd, rfl, hok, hel, by simpa using hK⟩
+    · rw [htd, (ifaceElem_facts env id).2.2.2.2] at hK; cases hK
+    · rw [htd, (ifaceElem_facts env id).2.2.2.2] at hK; cases hK
   · obtain ⟨hr, hs, _⟩ := hp hptr
     rw [ptr_field_not_list hr hs] at hK; cases hK
 
@@ -273,12 +309,14 @@ theorem wfElems_prim {env : Env} {d : Nat} {e : TD} (he : isPrimTD e = true) :
     rw [wfElems_cons] at h
     simp only [List.mem_cons] at hv
     rcases hv with rfl | hv
-    · rcases wf_cases h.1 with hp | ⟨vs', rfl⟩ | ⟨vs', rfl⟩
+    · rcases wf_cases h.1 with hp | ⟨vs', rfl⟩ | ⟨vs', rfl⟩ | ⟨_, id, htd⟩ | ⟨_, _, id, _, htd⟩
       · exact hp
       · obtain ⟨name, _, _, _, _, _, htd, _⟩ := wf_struct_inv h.1
         rw [htd] at he; cases he
       · obtain ⟨ptr, e', htd, _⟩ := wf_list_inv h.1
         rw [htd] at he; cases he
+      · rw [htd] at he; cases he
+      · rw [htd] at he; cases he
     · exact wfElems_prim he h.2 v hv
 
 theorem encPacked_eq_nil {env : Env} {d : Nat} {e : TD} (he : isPrimTD e = true) {vs : List Val}
@@ -323,12 +361,16 @@ theorem list_enc_zero {env : Env} {d : Nat} {ptr : Bool} {e : TD} {vs : List Val
       -- packed: the element descriptor is a packed primitive
       unfold listElemOK at hok
       simp only [Bool.or_eq_true, Bool.and_eq_true, Bool.not_eq_true'] at hok
-      rcases hok with ⟨hpe | hble, _⟩ | ⟨hr, hs⟩
+      rcases hok with ⟨(hpe | hble) | hif, _⟩ | ⟨hr, hs⟩
       · obtain ⟨hprim, _, hbe⟩ := packedElem_facts (env := env) hpe
         rw [hbe] at h1
         exact encPacked_eq_nil hprim hel h1
       · obtain ⟨_, ht3, hbe, _⟩ := blElem_facts (env := env) hble
         simp [ht3, hbe] at hpk
+      · cases hte : e <;> simp [hte, isIfaceTD] at hif
+        rename_i id
+        rw [hte] at hpk
+        simp [(ifaceElem_facts env id).1, (ifaceElem_facts env id).2.1] at hpk
       · cases hte : e <;> simp [hte, isRefTD] at hr
         rename_i name
         rw [hte] at hs
@@ -363,6 +405,30 @@ end GnoVerif.C20
 
 namespace GnoVerif.C20
 
+theorem isStructOrUnpacked_ref' {env : Env} {name : Bytes} (h : aliasOf env name = none) :
+    isStructOrUnpacked env (.ref name) = true := by
+  simp [isStructOrUnpacked, repr_ref h]
+
+/-- the Any envelope: type URL, then (unless empty) the value. -/
+def anyEnvelope (name buf2 : Bytes) : Bytes :=
+  encKey 1 .blen ++ encBytes (47 :: name) ++
+    (if buf2.isEmpty || buf2 == [0] then [] else encKey 2 .blen ++ encBytes buf2)
+
+theorem enc_any (env : Env) (id name n : Bytes) (ifs : List Bytes) (fs : List FieldD) (rs : List Nat) (cv : Val)
+    (fnum : Nat) (bare bo : Bool) (hfind : env.find? name = some ⟨n, ifs, .struct fs rs⟩) :
+    enc env (.iface id) (.any name cv) fnum bare bo = (do
+      let buf2 ← enc env (.ref name) cv 1 true false
+      pure (writeMaybeBare (anyEnvelope name buf2) bare)) := by
+  simp only [enc, hfind, ctdOf, isStructOrUnpacked_ref' (aliasOf_struct hfind), Bool.not_true,
+    Bool.false_eq_true, if_false, anyEnvelope]
+
+theorem anyEnvelope_ne_nil (name buf2 : Bytes) : anyEnvelope name buf2 ≠ [] := by
+  unfold anyEnvelope
+  have := encKey_ne_nil 1 .blen
+  cases hk : encKey 1 .blen with
+  | nil => exact absurd hk this
+  | cons _ _ => simp
+
 /-- head-field argument shared by `zero_fields` and `omitted_field_zero`: given the
 value-level zero lemma for the field's value, an omitted non-list-path field holds
 the zero slot. -/
@@ -380,7 +446,7 @@ theorem omitted_field_core (env : Env) (d : Nat) (f : FieldD) (fs : List FieldD)
     split at hone
     · rename_i hdef
       simp only [hwe, Bool.not_false, Bool.true_and] at hdef
-      rcases wf_cases hwv with ⟨hpv, hprim⟩ | ⟨vs', rfl⟩ | ⟨es, rfl⟩
+      rcases wf_cases hwv with ⟨hpv, hprim⟩ | ⟨vs', rfl⟩ | ⟨es, rfl⟩ | ⟨rfl, id, htd⟩ | ⟨_, _, id, rfl, htd⟩
       · obtain ⟨bs', hbs', _, _⟩ := prim_roundtrip f.td v hprim
         exact prim_omitted_zero env f.td v hprim bs' hbs' (Or.inl hdef) k
       · simp [isDefault, isDefaultVal] at hdef
@@ -389,6 +455,9 @@ theorem omitted_field_core (env : Env) (d : Nat) (f : FieldD) (fs : List FieldD)
         subst hdef
         rw [htd]
         cases k <;> rfl
+      · rw [htd]
+        cases k <;> rfl
+      · simp [isDefault, isDefaultVal] at hdef
     · cases henc : enc env f.td v 0 false false with
       | error e => rw [henc] at hone; cases hone
       | ok value =>
@@ -407,11 +476,14 @@ theorem omitted_field_core (env : Env) (d : Nat) (f : FieldD) (fs : List FieldD)
         intro ⟨_, hprim⟩
         have := primOK_isPrimTD hprim
         cases htd : f.td <;> simp [htd, isRefTD, isPrimTD] at hr this
-      have hnotlist : ¬ ∃ es, v = .list es := by
-        intro ⟨es, hes⟩
-        subst hes
-        obtain ⟨ptr, e, htd, _⟩ := wf_list_inv hwv
-        rw [htd] at hr; cases hr
+      have hnotlist : ¬ ((∃ es, v = .list es) ∨ (v = .nil ∧ ∃ id, f.td = .iface id) ∨
+          (∃ name cv id, v = .any name cv ∧ f.td = .iface id)) := by
+        rintro (⟨es, hes⟩ | ⟨_, id, htd⟩ | ⟨_, _, id, _, htd⟩)
+        · subst hes
+          obtain ⟨ptr, e, htd, _⟩ := wf_list_inv hwv
+          rw [htd] at hr; cases hr
+        · rw [htd] at hr; cases hr
+        · rw [htd] at hr; cases hr
       split at hone
       · rename_i hdef
         simp only [hwe, Bool.not_false, Bool.true_and] at hdef
@@ -525,8 +597,27 @@ theorem zero_val (env : Env) : ∀ (v : Val) (d : Nat) (td : TD) (bs : Bytes) (f
     exact prim_omitted_zero env td _ hw bs' hbs' hom k
   | .t _ _, _, _, _, _, hw, _, _, _, _, _ => by simp [wf] at hw
   | .d _, _, _, _, _, hw, _, _, _, _, _ => by simp [wf] at hw
-  | .nil, _, _, _, _, hw, _, _, _, _, _ => by simp [wf] at hw
-  | .any _ _, _, _, _, _, hw, _, _, _, _, _ => by simp [wf] at hw
+  | .nil, _, td, _, _, hw, _, _, _, k, _ => by
+    obtain ⟨id, rfl⟩ := wf_nil_inv hw
+    cases k <;> rfl
+  | .any name cv, d, td, bs, fnum, hw, he, hom, hlen, _, _ => by
+    exfalso
+    obtain ⟨id, n, ifs, fs, rs, rfl, hfind, _, _, _⟩ := wf_any_inv hw
+    rcases hom with hd | hb
+    · simp [isDefault, isDefaultVal] at hd
+    · rw [enc_any env id name n ifs fs rs cv fnum false false hfind] at he
+      cases h2 : enc env (.ref name) cv 1 true false with
+      | error x => rw [h2] at he; cases he
+      | ok buf2 =>
+        rw [h2] at he
+        simp only [bind, Except.bind, pure, Except.pure, Except.ok.injEq] at he
+        rw [← he] at hb hlen
+        have hbl : (anyEnvelope name buf2).length < 2 ^ 64 := by
+          unfold writeMaybeBare at hlen
+          split at hlen
+          · rename_i hemp; simp at hemp; simp [hemp]
+          · simp only [Bool.false_eq_true, if_false, encBytes, List.length_append] at hlen; omega
+        exact anyEnvelope_ne_nil name buf2 (writeMaybeBare_eq_zero hb hbl)
   | .m _ _, _, _, _, _, hw, _, _, _, _, _ => by simp [wf] at hw
 
 /-- a struct whose field encodings are all empty has all fields zero. -/
@@ -596,13 +687,15 @@ theorem defaultSlot_eq_zeroSlot (env : Env) (d : Nat) (f : FieldD) (fs : List Fi
   cases hptr : f.ptr
   · have hwv := hnp hptr
     have htime' : ¬ f.td = TD.time := by
-      rcases wf_cases hwv with ⟨_, hprim⟩ | ⟨vs', rfl⟩ | ⟨es, rfl⟩
+      rcases wf_cases hwv with ⟨_, hprim⟩ | ⟨vs', rfl⟩ | ⟨es, rfl⟩ | ⟨_, id, htd⟩ | ⟨_, _, id, _, htd⟩
       · have := primOK_isPrimTD hprim
         cases htd : f.td <;> simp [htd, isPrimTD] at this ⊢
       · obtain ⟨name, _, _, _, _, _, htd, _⟩ := wf_struct_inv hwv
         simp [htd]
       · obtain ⟨ptr, e, htd, _⟩ := wf_list_inv hwv
         simp [htd]
+      · simp [htd]
+      · simp [htd]
     simp [defaultSlot, zeroSlot, hptr, htime', zeroOf]
   · obtain ⟨hr, hs, _⟩ := hp hptr
     have htime' : ¬ f.td = TD.time := by
